@@ -91,12 +91,22 @@ func tryReplay(prop string, o *Obl, r *FuncReport, repo, verif string) (string, 
 	os.WriteFile(ovFile, ovb, 0o644)
 	ctx, cancel := context.WithTimeout(context.Background(), 150*time.Second)
 	defer cancel()
-	cmd := exec.CommandContext(ctx, "go", "test", "-overlay", ovFile, "-vet=off", "-count=1", "-timeout", "60s", "-v", "-run", "TestVerifReplay", ".")
+	args := []string{"test", "-overlay", ovFile, "-vet=off", "-count=1", "-timeout", "60s", "-v", "-run", "TestVerifReplay", "."}
+	raceMode := strings.HasPrefix(r.Replay, "race_")
+	if raceMode {
+		// a template named race_* is run under the race detector: its report is the confirmation
+		args = append([]string{"test", "-race"}, args[1:]...)
+	}
+	cmd := exec.CommandContext(ctx, "go", args...)
 	cmd.Dir = pkgDir
 	cmd.Env = append(os.Environ(), "GOFLAGS=-mod=mod", "GOPROXY=off", "GOSUMDB=off", "GOTOOLCHAIN=local")
 	out, _ := cmd.CombinedOutput()
 	fmt.Fprintf(&b, "\ngo test -overlay (real %s, template %s):\n%s\n", r.PkgDir, r.Replay, truncate(string(out), 6000))
 	fmt.Fprintf(&b, "\n--- replay test source ---\n%s\n", src.String())
+	if raceMode && strings.Contains(string(out), "WARNING: DATA RACE") {
+		fmt.Fprintf(&b, "\nREPLAY-CONFIRMED the race detector reports a data race on the real code\n")
+		return b.String(), true
+	}
 	return b.String(), strings.Contains(string(out), "REPLAY-CONFIRMED")
 }
 
